@@ -139,6 +139,12 @@ func runC13(ctx *core.Ctx) {
 			continue
 		}
 		early++
+		// the record is parsed as a 64-bit decimal: a narrower size turns every time after 2038 into "corrupt"
+		for _, pc := range g.Calls("strconv.ParseInt") {
+			b10, ok1 := ssax.ConstInt(pc.Call.Args[1])
+			b64, ok2 := ssax.ConstInt(pc.Call.Args[2])
+			ctx.Check(ok1 && ok2 && b10 == 10 && b64 == 64, "T2", "cache.Trim#record-width", pc.Pos(), "the trim record is parsed in base 10 into 64 bits (found base %d, %d bits)", b10, b64)
+		}
 		facts := g.FactsAtInstr(r)
 		up := cmpFact(facts, token.LSS, isD, isConstIntV(trimInterval))
 		lo := cmpFact(facts, token.GTR, isD, isConstIntV(-mtimeInterval))
